@@ -50,6 +50,7 @@ MIN_COUNTERS = {
     "ctxname_runs": {"quick": 300, "thorough": 300},
     "odd_input_runs": {"quick": 200, "thorough": 200},
     "breakout_string_runs": {"quick": 100, "thorough": 100},
+    "vyxal_text_breakout_runs": {"quick": 200, "thorough": 200},
 }
 UNIT_TIMEOUT = 150
 MARK = "VYTAINT"
@@ -109,12 +110,17 @@ def _audit(event, args):
         pass
 
 
+_re_ident = __import__("re").compile(r"^(VAR_|_lambda_)[A-Za-z0-9_]*$")
+
+
 def _ast_taint(tree):
     """Does the marker occur in an AST outside string constants?"""
     for node in ast.walk(tree):
         for f in ("id", "attr", "arg", "name"):
             v = getattr(node, f, None)
-            if isinstance(v, str) and MARK in v:
+            # an identifier made of the transpiler's own prefix and the letters / digits of a program-chosen
+            # name is what the generated code is allowed to contain; the marker as a name of its own is not
+            if isinstance(v, str) and MARK in v and not _re_ident.match(v):
                 return True
     return False
 
@@ -446,6 +452,34 @@ def run_unit(unit):
                         add_violation(res, mech, f"program {text!r} inputs={inputs}: {what}",
                                       {"kind": "one", "mode": "taint", "text": text, "inputs": inputs, "flags": "", "fault": None},
                                       program=text)
+        # user text that is Vyxal source (run with Ė online, or given as the program itself) with Python-shaped
+        # text in every position where program-chosen text becomes part of an identifier: whatever the Vyxal
+        # means, the Python in it must never run
+        from lib.gen import payloads as PL
+
+        pyexprs = ["x if VYTAINT(30) else x", "x(VYTAINT(31))", "x;VYTAINT(32)", "x=VYTAINT(33)", "x[VYTAINT(34)]",
+                   "x,y=VYTAINT(35),1", "x" + chr(10) + "VYTAINT(36)", "x or VYTAINT(37)", "x.y(VYTAINT(38))",
+                   "VYTAINT(39)", "x)(VYTAINT(40)", "x:=VYTAINT(41)"]
+        for pos in PL.C18_NAME_POSITIONS:
+            for wrapper in PL.C18_WRAPPERS:
+                for px in pyexprs:
+                    try:
+                        vy = PL.c18_program(pos, wrapper, px)
+                    except Exception:  # noqa
+                        continue
+                    for text, inputs in (("?Ė", [vy]), (vy, []), ("`" + vy.replace(BS, BS + BS).replace(BQ, BS + BQ) + "`Ė", [])):
+                        got = run_online(text, inputs, "", timeout=5)
+                        if got["error"] in ("watchdog", "MemoryError"):
+                            continue
+                        observe(got)
+                        c["vyxal_text_breakout_runs"] = c.get("vyxal_text_breakout_runs", 0) + 1
+                        res["keys"].append(harness.short_hash(["vybreakout", text, inputs]))
+                        for mech, what in containment_violations(got, text):
+                            if mech == "error-after-program-propagates":
+                                continue
+                            add_violation(res, mech, f"program {text!r} inputs={inputs}: {what}",
+                                          {"kind": "one", "mode": "taint", "text": text, "inputs": inputs, "flags": "", "fault": None},
+                                          program=text)
         res["samples"].append({"mode": "odd_inputs", "inputs": odd[:8]})
         return res
     if k == "ctxnames":
